@@ -141,6 +141,16 @@ reg("C06", "Hypothesis hostile images (independent writer) -> rdsquashfs --unpac
     "Trusts lib/sqfswrite.py; the jail stands in for 'the rest of the file system' (symlink targets point at it absolutely and relatively).",
     "DESIGN.md 4/C06")
 
+reg("C09", "controlled scheduler (src/vsched.cc) under the unmodified threadpool.c: complete / preemption-bounded DFS + random schedules", "exploration",
+    "systematic schedule enumeration (stateless DFS over choice sequences, preemption bounding) and random schedules with history invariants",
+    "threadpool.c is compiled with its pthread calls routed to a scheduler that runs one logical thread at a time; client programs over "
+    "submit/dequeue/get_status with every failure position are executed under all schedules for 1 worker with <=2 items (thorough <=3, and 2 "
+    "workers/2 items), under all schedules with <=2 (thorough 3) preemptions for 2-3 workers and 2-3 items, and under random schedules with "
+    "spurious wake-ups up to 3 workers / 5 items. Invariants: exactly-once on one worker, exclusive per-worker context, FIFO exactly-once "
+    "hand-back, failure reported instead of blocking, destroy joins; deadlock = no runnable thread.",
+    "Sequentially consistent interleavings at mutex/condvar granularity; the block processor on top of the pool is exercised with real threads "
+    "in C02 (schedule perturbation + ThreadSanitizer), not on the controlled scheduler.", "DESIGN.md 4/C09")
+
 NOT_YET = {}
 
 ALL = ["C%02d" % i for i in range(1, 20)]
